@@ -8,7 +8,7 @@ KeyNo(k) == IF k = K1 THEN 1 ELSE IF k = K2 THEN 2 ELSE 3
 \* one scenario per transition of the mechanism's state graph (ops use key numbers / value lengths)
 Ops(h) == [i \in 1..Len(h) |-> IF h[i].op = "flush" THEN [op |-> "flush"]
                                ELSE IF h[i].op = "prigc" THEN [op |-> "prigc", lowUse |-> h[i].lowUse, deadline |-> h[i].deadline]
-                               ELSE IF h[i].op = "idxgc" THEN [op |-> "idxgc", scanFree |-> h[i].scanFree, deadline |-> 0]
+                               ELSE IF h[i].op = "idxgc" THEN [op |-> "idxgc", scanFree |-> h[i].scanFree, deadline |-> h[i].deadline]
                                ELSE IF h[i].op = "rem" THEN [op |-> "rem", k |-> KeyNo(h[i].k)]
                                ELSE [op |-> "put", k |-> KeyNo(h[i].k), vlen |-> h[i].v]]
 EmitEdges == [][PrintT(<<"SCN", ToJson([ops |-> Ops(hist')])>>)]_vars
